@@ -79,6 +79,8 @@ def _awkward():
         "frozenset_of_dicts": lambda: _rule(t.FrozenSet[t.Dict[str, int]]),
         "dict_keyed_by_list": lambda: _rule(t.Dict[t.Tuple[int, ...], int]),
         "set_of_sets": lambda: _rule(t.Set[t.Set[int]]),
+        "dict_keyed_by_int_lists": lambda: Rule.annotate(dict, t.List[int], int),
+        "untyped_contains_int": lambda: Rule.annotate(None, constraints={"contains": int}),
         "contains_int": lambda: Rule.annotate(list, constraints={"contains": int}),
         "contains_float_max1": lambda: Rule.annotate(list, constraints={"contains": float, "max_contains": 1}),
         "tuple_contains_decimal": lambda: Rule.annotate(tuple, constraints={"contains": __import__("decimal").Decimal, "min_contains": 1}),
@@ -265,6 +267,7 @@ def campaign(ctx):
                      {"t": "dict", "v": [["item", {"t": "dict", "v": [["kind", {"t": "list", "v": []}], ["x", 1]]}]]}, {"t": "dict", "v": [["item", {"t": "dict", "v": [["kind", {"t": "dict", "v": []}]]}]]},
                      {"t": "dict", "v": [["item", {"t": "dict", "v": [["kind", "a"], ["x", "2"]]}]]}, {"t": "dict", "v": [["item", {"t": "dict", "v": [["kind", "zz"]]}]]}, {"t": "dict", "v": [["item", 5]]},
                      {"t": "dict", "v": [["item", {"t": "dict", "v": [["kind", {"t": "obj"}]]}]]}, {"t": "dict", "v": [["item", {"t": "dict", "v": [["kind", F("nan")]]}]]},
+                     {"t": "dict", "v": [["1,2", 3]]}, {"t": "dict", "v": [["[1]", "2"], ["x", 1]]}, 5, None, {"t": "float", "v": "1.5"},
                      {"t": "iter", "v": ["1", "x", 3]}, {"t": "gen", "v": [1, "2", None]}, {"t": "iter", "v": ["1", 2]}, {"t": "gen", "v": ["2020-01-02", "zz"]}, {"t": "iter", "v": []},
                      {"t": "dict", "v": [["_obj_self", 1]]}, {"t": "dict", "v": [["_d", 1], ["a", "2"]]}, {"t": "dict", "v": [["_d", {"t": "dict", "v": [["a", "x"]]}]]}, {"t": "dict", "v": [["self", 1], ["cls", 2]]},
                      {"t": "dict", "v": [["kwargs", {"t": "dict", "v": []}], ["args", {"t": "list", "v": []}]]}, {"t": "dict", "v": [["__class__", 1], ["__dict__", {"t": "dict", "v": []}]]},
